@@ -2,6 +2,7 @@ import RTV.Lemmas.Ip
 import RTV.Lemmas.Seq
 import RTV.Lemmas.Guid
 import RTV.Lemmas.Ip6
+import RTV.Lemmas.Tags
 /-!
 # C13 — IP addresses, GUIDs and other sequence entities: sound and complete recognition
 
@@ -163,6 +164,80 @@ base for any digit valuation that sends `'0'` to 0 (with `drop_zeros_groupwise`:
 theorem drop_zeros_group_value (B : Nat) (v : Nat → Nat) (hv : v 48 = 0) (g : List Nat) :
     posVal B v (normNumber g) = posVal B v g ∧ Canon (normNumber g) :=
   ⟨normNumber_posVal B v hv g, normNumber_canon g⟩
+
+/-! ### hashtags, mentions, e-mail addresses (`BaseHashtag.HashtagRegex`, `BaseMention.MentionRegex`,
+`BaseEmail.EmailRegex`; all compiled with IGNORECASE | DOTALL).  URL and phone-number patterns are translated and
+validated by the regex correspondence, but have no language theorem: `BaseURLExtractor._is_valid_match` reads the
+named groups `Tld` / `IPurl`, and the matcher of this layer has no captures; the phone extractor is a cascade of ten
+patterns with score-based post-filters — both stay correspondence-only. -/
+
+/-- C13 (hashtag, what a match is): from `i` the regex matches `#` + any non-empty prefix of the run of tag
+characters (`[a-zA-Z0-9_]` and `regex`'s IGNORECASE variants İ ı ſ K), provided `i` is at the start or after `\s`. -/
+theorem hashtag_lang (T : Tables) (s : Array Nat) (i j : Nat) :
+    Matches T RTV.Gen.hashtagRegex s i j ↔
+      AfterSpaceOrStart T s i ∧ code s i = 35 ∧ ∃ n, 1 ≤ n ∧ RunAt isTagChar s (i + 1) n ∧ j = i + 1 + n := by
+  unfold Matches; rw [gen_hashtag]; exact hashtagRE_lang i j
+
+/-- C13 (hashtag, exact span): a greedy backtracking engine started at `i` reports `#` plus the **whole** run of tag
+characters — or nothing. -/
+theorem hashtag_reported_span (T : Tables) (s : Array Nat) (i : Nat) :
+    firstEnd T s RTV.Gen.hashtagRegex i =
+      if AfterSpaceOrStart T s i ∧ code s i = 35 ∧ 1 ≤ runLen (tagOk T s) (1 + s.size + 1) (i + 1) then
+        some (i + 1 + runLen (tagOk T s) (1 + s.size + 1) (i + 1))
+      else none := by
+  rw [gen_hashtag]; exact hashtagRE_firstEnd i
+
+/-- `see #Tag_1 now` → `[4, 10)` (engine's real tables) -/
+example : findAll RTV.Gen.reTables #[115, 101, 101, 32, 35, 84, 97, 103, 95, 49, 32, 110, 111, 119] RTV.Gen.hashtagRegex
+    = [(4, 10)] := by decide +kernel
+
+/-- C13 (mention, what a match is): `@`, a non-empty run of tag characters, not followed by `.` + word character,
+then a word boundary. -/
+theorem mention_lang (T : Tables) (s : Array Nat) (i j : Nat) :
+    Matches T RTV.Gen.mentionRegex s i j ↔
+      code s i = 64 ∧ ∃ n, 1 ≤ n ∧ RunAt isTagChar s (i + 1) n ∧ j = i + 1 + n ∧ ¬ DotWord T s j ∧
+        isWordB T s j = true := by
+  unfold Matches; rw [gen_mention]; exact mentionRE_lang i j
+
+/-- C13 (mention, exact span): when tag characters are word characters (`real_tagchars_are_word`) all matches from `i`
+end at the same place — the end of the whole run — so that is what the engine reports. -/
+theorem mention_unique {T : Tables} (hw : ∀ c, isTagChar c → T.word c = true) (s : Array Nat) (i j j' : Nat)
+    (h : Matches T RTV.Gen.mentionRegex s i j) (h' : Matches T RTV.Gen.mentionRegex s i j') : j = j' := by
+  unfold Matches at h h'; rw [gen_mention] at h h'; exact mentionRE_unique hw h h'
+
+theorem mention_reported_span {T : Tables} (hw : ∀ c, isTagChar c → T.word c = true) (s : Array Nat) (i j : Nat)
+    (h : Matches T RTV.Gen.mentionRegex s i j) : firstEnd T s RTV.Gen.mentionRegex i = some j :=
+  firstEnd_of_unique fun j' => ⟨fun h' => mention_unique hw s i j' j h' h, fun e => e ▸ h⟩
+
+instance : DecidablePred isTagChar := fun c => by unfold isTagChar; exact inferInstance
+
+def tagCharList : List Nat :=
+  List.range' 48 10 ++ List.range' 65 26 ++ [95] ++ List.range' 97 26 ++ [304, 305, 383, 8490]
+
+theorem real_tagchars_are_word : ∀ c, isTagChar c → RTV.Gen.reTables.word c = true := by
+  have hall : tagCharList.all (fun c => RTV.Gen.reTables.word c) = true := by decide +kernel
+  intro c hc
+  have hm : c ∈ tagCharList := by
+    unfold isTagChar at hc
+    simp only [tagCharList, List.mem_append, List.mem_range'_1, List.mem_cons, List.mem_nil_iff, or_false]
+    omega
+  exact List.all_eq_true.1 hall c hm
+
+/-- `hi @bob_1.` → `[3, 9)`; `@bob.x` → nothing (engine's real tables) -/
+example : findAll RTV.Gen.reTables #[104, 105, 32, 64, 98, 111, 98, 95, 49, 46] RTV.Gen.mentionRegex = [(3, 9)] := by
+  decide +kernel
+example : findAll RTV.Gen.reTables #[64, 98, 111, 98, 46, 120] RTV.Gen.mentionRegex = [] := by decide +kernel
+
+/-- C13 (e-mail, what a match is): `local@domain.tld` with the three character classes of the pattern and 2–6 tld
+characters.  (`hd0`: NUL is not a digit — true for every engine.) -/
+theorem email_lang {T : Tables} (hd0 : T.digit 0 = false) (s : Array Nat) (i j : Nat) :
+    Matches T RTV.Gen.emailRegex s i j ↔
+      ∃ a b n, 1 ≤ a ∧ RunAt (EmailLocal T) s i a ∧ code s (i + a) = 64 ∧
+        1 ≤ b ∧ RunAt (EmailDomain T) s (i + a + 1) b ∧ code s (i + a + 1 + b) = 46 ∧
+        2 ≤ n ∧ n ≤ 6 ∧ RunAt (EmailTld T) s (i + a + 1 + b + 1) n ∧ j = i + a + 1 + b + 1 + n := by
+  unfold Matches; rw [gen_email]; exact emailRE_lang hd0 i j
+
+example : RTV.Gen.reTables.digit 0 = false := by decide +kernel
 
 /-! ### `drop_leading_zeros` -/
 
